@@ -7,7 +7,7 @@ import dbcommon as D
 class C03(Prop):
     id = "C03"
     translators = []
-    proof_targets = ["Outstation/EventBufferProofs.vo"]
+    proof_targets = ["Outstation/EventBufferProofs.vo", "Outstation/SessionC03Proofs.vo"]
     property_file = "Properties/C03.v"
     theorems = []
     own_clauses = ("C03", "ALL")
